@@ -30,7 +30,7 @@ func (g *Gen) newUnitGen(unit string, fn *ssa.Function, ct *Contract) *UnitGen {
 		init: map[string]Term{}, varSort: map[string]Sort{}, fresh: map[string]int{}, obCtr: map[string]int{},
 		assumed: map[string]string{}, localTypes: map[string]types.Type{}, nonNil: map[string]bool{},
 		closureAt: map[string]*Closure{}, edgeGuard: map[edgeKey]Term{}, inlined: map[string]bool{},
-		callCtr: map[string]int{}, dropped: map[string]bool{}, fresh0: map[string]bool{}}
+		callCtr: map[string]int{}, dropped: map[string]bool{}, fresh0: map[string]bool{}, regionCache: map[string]string{}}
 }
 
 // shortUnit turns github.com/openconfig/gribigo/server.isNewMaster into server.isNewMaster.
@@ -137,7 +137,7 @@ func (u *UnitGen) run() {
 	if fn.Blocks == nil {
 		unsup("function has no body")
 	}
-	st := &State{reach: TTrue, vars: map[string]Term{}}
+	st := &State{reach: TTrue, vars: map[string]Term{}, epoch: map[string]int{}}
 	fr := u.newFrame(fn, 0)
 	fr.top = true
 	fr.localNames = map[string]*ssa.Alloc{}
@@ -149,7 +149,7 @@ func (u *UnitGen) run() {
 	// entry state
 	u.top0 = u.get(st, "top", SInt)
 	u.assumeRaw(App(SBool, "<=", IntN(1), u.top0))
-	env := &Env{u: u, vars: map[string]Val{}, cur: st, old: st, pkgPath: u.contract.Pkg, fr: fr}
+	env := &Env{u: u, vars: map[string]Val{}, cur: st, old: nil, pkgPath: u.contract.Pkg, fr: fr}
 	for _, p := range fn.Params {
 		so := reg.SortOf(p.Type())
 		name := "p_" + mangle(p.Name())
@@ -207,6 +207,7 @@ func (u *UnitGen) run() {
 	}
 	// every other mutex is not held by this call chain on entry: lock arrays start at 0
 	// (assumed lazily, see lockInit)
+	env.old = st
 	var reqs []Term
 	for _, c := range u.contract.Requires {
 		t := env.evalBool(c.E)
@@ -221,6 +222,10 @@ func (u *UnitGen) run() {
 		cover.Backend = ""
 	}
 	entry := st.clone()
+	env.old = entry
+	// register every state key the postconditions mention, so that joins of paths with
+	// different region generations merge them explicitly
+	u.preRegister(fn, env, entry)
 	exits := u.execRegion(fr, fn.Blocks[0], nil, st, nil)
 	if len(exits) == 0 {
 		u.note("function has no normal exit")
@@ -266,12 +271,28 @@ func (u *UnitGen) frameObligations(entry, final *State, env *Env) {
 	for _, a := range u.contract.Assigns {
 		locs = append(locs, env.withState(entry).evalLoc(a)...)
 	}
+	regionOK := map[string]bool{}
+	for _, l := range locs {
+		if l.region != "" {
+			regionOK[l.region] = true
+		}
+	}
+	for _, r := range u.g.specs.RegionOrd {
+		ch, ok := final.vars["RC:"+r]
+		if !ok || ch.S == "false" || regionOK[r] {
+			continue
+		}
+		u.oblige(final, "frame", "frame:region "+r, "the state owned by region "+r+" is not modified (not in assigns)", Not(ch))
+	}
 	keys := make([]string, 0, len(final.vars))
 	for k := range final.vars {
 		keys = append(keys, k)
 	}
 	sort.Strings(keys)
 	for _, k := range keys {
+		if r := u.regionOf(k); r != "" && (regionOK[r] || final.epoch[r] != entry.epoch[r]) {
+			continue // covered by the region obligation above
+		}
 		pfx := k[:strings.Index(k, ":")+1]
 		switch pfx {
 		case "H:", "C:", "MD:", "MV:", "SD:", "SL:", "G:", "g:":
@@ -281,10 +302,7 @@ func (u *UnitGen) frameObligations(entry, final *State, env *Env) {
 		fin := final.vars[k]
 		ini, ok := entry.vars[k]
 		if !ok {
-			ini, ok = u.init[k]
-			if !ok {
-				continue
-			}
+			ini = u.get(entry, k, u.varSort[k])
 		}
 		if fin.S == ini.S {
 			continue
@@ -480,4 +498,35 @@ func (r *UnitResult) IncrementalScript() (string, []*Obligation) {
 		b.WriteString("\n")
 	}
 	return b.String(), order
+}
+
+func (u *UnitGen) preRegister(fn *ssa.Function, env *Env, entry *State) {
+	u.dry++
+	nEv, nObs := len(u.events), len(u.obs)
+	saved := map[string]bool{}
+	for k := range u.g.reg.factSeen {
+		saved[k] = true
+	}
+	pe := &Env{u: u, vars: map[string]Val{}, cur: entry.clone(), old: entry, pkgPath: u.contract.Pkg}
+	for k, v := range env.vars {
+		pe.vars[k] = v
+	}
+	for i := 0; i < fn.Signature.Results().Len(); i++ {
+		rt := fn.Signature.Results().At(i).Type()
+		v := Val{T: u.g.reg.Zero(rt), Ty: rt}
+		pe.vars[fmt.Sprintf("result%d", i)] = v
+		if i == 0 {
+			pe.vars["result"] = v
+		}
+	}
+	for _, c := range u.contract.Ensures {
+		func() {
+			defer func() { recover() }()
+			pe.eval(c.E)
+		}()
+	}
+	u.dry--
+	u.events = u.events[:nEv]
+	u.obs = u.obs[:nObs]
+	u.g.reg.factSeen = saved
 }
